@@ -22,6 +22,8 @@ let opt_url = function
   | [scheme; user; host; hostip] -> Some (purl scheme user host hostip)
   | _ -> failwith "url fields"
 
+let chain s = List.map (fun u -> opt_url (String.split_on_char ';' u)) (String.split_on_char '|' s)
+
 let dispatch fn args = match fn, args with
   | "classify", [a] ->
     let a = bytes_of_hex a in
@@ -51,6 +53,15 @@ let dispatch fn args = match fn, args with
     let ((o, calls), rest) = revocationConnect allowed (bytes_of_hex h) (lookups lk) (script sc) in
     outcome o ^ ";lookups=" ^ hex_of_n calls ^ ";unconsumed=" ^ string_of_int (List.length rest)
     ^ ";candidates=" ^ show_iplist (revocationDialCandidates allowed (bytes_of_hex h) (nextAnswer (lookups lk)))
+  (* redirect chains: URLs separated by '|', fields of one URL by ';' ; reply = how many URLs are requested *)
+  | "revchain", [c] ->
+    (match chain c with
+     | first :: targets -> string_of_int (List.length (revocationFetchChain first targets))
+     | [] -> failwith "empty chain")
+  | "imgchain", [c] ->
+    (match List.map (function Some u -> u | None -> failwith "imgchain: unparsable") (chain c) with
+     | first :: targets -> string_of_int (List.length (imageBoxFetchChain first targets))
+     | [] -> failwith "empty chain")
   | "revurl", u -> b (validateRevocationURL (opt_url u))
   | "revredirect", n :: u -> b (revocationRedirect (n_of_hex n) (opt_url u))
   | "imgurl", u -> let (r, ok) = imageBoxRemoteURL (opt_url u) in "remote=" ^ b r ^ ",ok=" ^ b ok
